@@ -63,6 +63,29 @@ const C14_RULE: &str = "World W3 (reliable sender): the real ReliableSender agai
 
 pub fn specs() -> Vec<PropSpec> {
     vec![
+        spec("C15", crate::gen::c15, "Cluster scenario (world W1) with five authorities, one of them silent and played by the harness (its key signs well-formed messages with absurd content), healthy network and client load. Between 0.4 s and 2.5-4 s, 20-200 hostile inputs hit the consensus, mempool and transaction ports of the four real nodes: empty frames, random bytes, length prefixes above the 8 MiB codec limit, truncated frames followed by a close, bit-flipped / truncated / extended copies of real frames captured from the tap, enum tags out of range, vector lengths of 2^58..2^60, public-key strings that are not base64 or decode to fewer than 32 bytes, sync requests naming a mempool batch key of the shared store, batch requests naming a consensus block key, requests from unknown origins, votes / timeouts of round 2^64-1, a proposal for a round near 2^64 on top of genesis, a TC without votes, 1 MiB transactions. Afterwards every node is probed: it must still commit, answer a sync request and a batch request from its store, and batch a fresh transaction. Both build configurations are run.",
+            |r| p(r, "C15.service-probe") > 0 && f(r, "hostile-frame") > 0,
+            "hostile inputs were injected and the service probes ran",
+            &["C15.service-probe", "C15.service-ok.b", "C15.service-ok.m", "C15.service-ok.t", "C15.service-ok.c", "hostile.sync-request-for-batch-key", "hostile.batch-request-for-block-key", "hostile.kind12", "hostile.kind34"], 120, 4000),
+        PropSpec {
+            id: "C16",
+            level: "exploration",
+            gen: crate::gen::c16,
+            gen_rule: "World W3 (store): the real Store (RocksDB on tmpfs) with 2..6 client tasks holding clones of the handle, 1..4 overlapping keys, unique values; each client runs a seeded sequence of writes, reads and notify-reads separated by seeded numbers of yields (so the interleaving of their commands is the seed's choice), with 0..5 waiters per key registered before and after writes; then every handle is dropped, the store task ends, and the store is reopened on the same path. The store-side taps give the exact command order, against which every result is checked with a map model.",
+            nontrivial: |r| p(r, "st.waiters-woken-by-write") > 0 && p(r, "st.read-hit") > 0,
+            nontrivial_rule: "at least one notify-read was registered before the write that released it, and at least one read hit a written key",
+            required_probes: &["st.waiters-woken-by-write", "st.notify-immediate", "st.read-hit", "st.read-miss", "st.several-waiters-one-key", "st.reopen-value-checked", "st.notify-still-pending"],
+            quick_runs: 1500,
+            thorough_runs: 60_000,
+            quick_wall_s: 90.0,
+            thorough_wall_s: 1200.0,
+            assumptions: &[
+                "sampling of interleavings, not enumeration; the interleaving is varied through yields and tokio scheduler knobs, not by an own poll-order scheduler",
+                "RocksDB is real; a process kill (loss of unsynced data) is not simulated, reopen happens after the store task has ended",
+                "the order in which the store task takes up commands is observed through the verification taps (observation only)",
+            ],
+            enumerated: None,
+        },
         PropSpec {
             id: "C14",
             level: "fault_enumeration",
